@@ -56,7 +56,7 @@ def replay_tc(p,repo):
 def replay_tr(p,repo):
   if repo not in sys.path: sys.path.insert(0,repo)
   from zoo import trcheck
-  f={'portmap':trcheck.check_portmap,'names':trcheck.check_names,'determinism':trcheck.check_determinism}[p['which']]
+  f={'portmap':trcheck.check_portmap,'names':trcheck.check_names,'instances':trcheck.check_instances,'determinism':trcheck.check_determinism}[p['which']]
   print("check      :",p['which'],"(see zoo/trcheck.py)")
   r=f(repo)
   if not r: print("the contract holds: NOT reproduced"); return 0
